@@ -114,9 +114,13 @@ class SBool(Sym):
     return o - self.to_int()
 
   def __mul__(self, o):
+    if isinstance(o, (list, tuple)):
+      return o * (1 if bool(self) else 0)
     return self.to_int() * o
 
   def __rmul__(self, o):
+    if isinstance(o, (list, tuple)):
+      return o * (1 if bool(self) else 0)
     return o * self.to_int()
 
   def __int__(self):
